@@ -218,6 +218,10 @@ def main():
     finally:
         shutil.rmtree(work, ignore_errors=True)
     static_pass(rep, thorough)
+    # generated gateways of the 'mexcall' profile executed through PyCall session plans: no crash, and every collector is
+    # empty once the last handle is deleted (clauses C11:* of harness/mexcallcheck.py)
+    import mexcallcheck
+    mexcallcheck.run(rep, thorough, "C11")
     nsteps = sum(len(s["trace"]) for s in sessions)
     rep.count("traces_validated_against_impl", len(sessions) + len(sub))
     rep.count("evaluations", len(sessions) + len(sub))
